@@ -53,11 +53,11 @@ pub fn resolve_case(c: &Value) -> Value {
                 .definitions
                 .iter()
                 .map(|d| {
-                    let (name, pos) = match d {
-                        ExecutableDefinition::OperationDefinition(o) => (o.name().unwrap_or("").to_string(), o.position),
-                        ExecutableDefinition::FragmentDefinition(f) => (f.name.name.to_string(), f.position),
+                    let (kind, name, pos) = match d {
+                        ExecutableDefinition::OperationDefinition(o) => ("op", o.name().unwrap_or("").to_string(), o.position),
+                        ExecutableDefinition::FragmentDefinition(f) => ("frag", f.name.name.to_string(), f.position),
                     };
-                    json!({"file": files[pos.file]["path"], "name": name})
+                    json!({"file": files[pos.file]["path"], "kind": kind, "name": name})
                 })
                 .collect();
             json!({"k": "ok", "defs": defs})
